@@ -228,6 +228,13 @@ fn node_scenario(a: &[&str]) -> String {
                     with_node!(node, n => { n.connect(addr_of(num(p[2]))).ok(); });
                     w.collect(i)
                 }
+                "E" => {
+                    // E.<i>: node i shuts down gracefully - its last act is a CLOSE to every peer (the node itself is not used afterwards)
+                    let i: u32 = num(p[1]);
+                    let node = w.nodes.get_mut(&i).unwrap();
+                    with_node!(node, n => n.v_close());
+                    w.collect(i)
+                }
                 "V" => {
                     // V.<i>.<j>: node i learnt node j from a beacon, as a plain IPv4 address (the beacon path calls connect_sock directly)
                     let i: u32 = num(p[1]);
